@@ -70,9 +70,7 @@ def run_robust(binary, lines, timeout=150, env=None):
                     res[i] = 'CRASH not-run'
                 return
             p = vf.run_lines(binary, [lines[i] for i in idx], timeout=tmo, env=env)
-            o = p.stdout.split('\n')
-            if o and o[-1] == '':
-                o = o[:-1]
+            o = p.stdout.split('\n')[:-1]      # drops '' after a complete last line, or a partial line of a killed process
             if p.returncode == 0 and len(o) == len(idx):
                 for i, x in zip(idx, o):
                     res[i] = x
